@@ -47,7 +47,9 @@ def run(prog: Program, rep, thorough: bool) -> None:
     cfg = CFG(za.node)
     deps = Deps(cfg, za.params)
     lm = _locals_from_config(za)
-    acc_names = {n for n, f in lm.items() if f == 'cZeroFindingAccuracy'} | {'self._config.cZeroFindingAccuracy'}
+    from .c18 import config_aliases
+    acc_names = {n for n, f in lm.items() if f == 'cZeroFindingAccuracy'} | {'self._config.cZeroFindingAccuracy'} | \
+        {f'{a_}.cZeroFindingAccuracy' for a_ in config_aliases(za)}
     if len(acc_names) < 1:
         raise AnalysisError('zero_angle: accuracy is not read from self._config')
 
